@@ -151,11 +151,40 @@ func c13PrimitiveCross(tier string) engine.Family {
 	return engine.Family{Name: "custom-primitive-cross", Arity: []int{len(cases)}, Body: func(x *engine.Exec) {
 		c := cases[x.Choose(len(cases))]
 		ev := scalars[x.Choose(len(scalars))]
-		shape := x.Choose(4)
+		shape := x.Choose(7)
 		var target reflect.Value
 		var evs []model.Event
 		var cell func() reflect.Value
+		deref := func(v reflect.Value) reflect.Value {
+			if !v.IsValid() || v.IsNil() {
+				return reflect.Value{}
+			}
+			return v.Elem()
+		}
 		switch shape {
+		case 4: // elements behind pointers: the registered unfolder must get a newly allocated X, not the pointer slot
+			target = reflect.New(reflect.SliceOf(reflect.PtrTo(c.t)))
+			evs = []model.Event{model.ArrStart(2, 0), ev, ev, model.ArrEnd()}
+			cell = func() reflect.Value {
+				if target.Elem().Len() != 2 {
+					return reflect.Value{}
+				}
+				return deref(target.Elem().Index(1))
+			}
+		case 5:
+			target = reflect.New(reflect.MapOf(reflect.TypeOf(""), reflect.PtrTo(c.t)))
+			evs = []model.Event{model.ObjStart(2, 0), model.KeyRef("j"), ev, model.KeyRef("k"), ev, model.ObjEnd()}
+			cell = func() reflect.Value { return deref(target.Elem().MapIndex(reflect.ValueOf("k"))) }
+		case 6:
+			st := reflect.StructOf([]reflect.StructField{{Name: "L", Type: reflect.SliceOf(reflect.PtrTo(c.t)), Tag: `struct:"l"`}, {Name: "P", Type: reflect.PtrTo(c.t), Tag: `struct:"p"`}})
+			target = reflect.New(st)
+			evs = []model.Event{model.ObjStart(-1, 0), model.KeyRef("p"), ev, model.KeyRef("l"), model.ArrStart(-1, 0), ev, ev, ev, model.ArrEnd(), model.ObjEnd()}
+			cell = func() reflect.Value {
+				if target.Elem().Field(0).Len() != 3 || !deref(target.Elem().Field(1)).IsValid() {
+					return reflect.Value{}
+				}
+				return deref(target.Elem().Field(0).Index(2))
+			}
 		case 0:
 			target, evs = reflect.New(c.t), []model.Event{ev}
 			cell = func() reflect.Value { return target.Elem() }
